@@ -19,7 +19,8 @@ class C03:
             "every Valid/Unchecked combination and wiring-time passive marks, compile-time passive sample node, stateful accumulators, "
             "structural TSL/TSB consumers with Valid/AllValid, if_then_else, feedback, inline and nested sub-graphs) x seeded tick scripts; "
             "each run compared evaluation by evaluation with the Python reference interpreter; non-trivial = the run contained at least one "
-            "user-code evaluation of a compute node; distinct = distinct (program shape, tick pattern) digests")
+            "user-code evaluation of a compute node; distinct = distinct (program shape, tick pattern) digests"
+            " Round 3: lift2 (a function lifted with lift<F>(), its own evaluator) and timer1p (a scheduler node whose only input is compile-time passive: no active input at all) are part of the vocabulary.")
     assumptions = ["the reference interpreter (sim/dataflow.py, appendix B of DESIGN.md) is the specification of the activation rule",
                    "scheduler cancellations are excluded here (C18 owns them)"]
     allow = dict(how=("inline", "nested"), lift=True, timer1p=True)
